@@ -1582,14 +1582,6 @@ Qed.
 (* ---------------------------------------------------------------------------------------- *)
 (** ** The safe direction, FIXED code: no side condition *)
 
-Lemma latest_middle_list n a m b y :
-  latest n (a ++ m ++ b) = Some y ->
-  (m = [] \/ exists x, m = [x]) -> In y m \/ latest n (a ++ b) = Some y.
-Proof.
-  intros H [->|[x ->]]; [right; assumption|].
-  apply latest_middle in H. destruct H as [->|H]; [left; left; reflexivity|right; assumption].
-Qed.
-
 (* After a crash at ANY byte k >= 15 and any later recording session, EVERY entry of the loaded
    table is
      - the latest completely written record of its output (among the records whose newline reached
